@@ -4,6 +4,10 @@ open Pcore.Object
 #print axioms C17_wf_env
 #print axioms C17_wf_noSerialization
 #print axioms C17_schema_partial
+#print axioms C17_schema_table_ok
+#print axioms C17_schema_admits
+#print axioms C17_schema
+#print axioms C17_schema_impl
 #print axioms C17_get
 #print axioms C17_get_constant
 #print axioms C17_get_named
